@@ -76,6 +76,10 @@ static void STRF(prep_insert,
 
     if (len > 0) {
         const size_t size = STRF(size, s);
+        if (len > SIZE_MAX - size) {
+            /* the resulting length is not representable */
+            abort();
+        }
         STRF(__resize, s, size + len);
         memmove(STRF(__at, s, pos + len),
                 STRF(__at, s, pos),
